@@ -54,6 +54,22 @@ theorem predictUnc_unc (f : List ℝ → ℝ) (θ hs : List ℝ) :
     (predictUnc f θ hs none).2 = Real.sqrt (varDiag (grads f θ hs) hs) := by
   constructor <;> intros <;> rfl
 
+/-- **the returned uncertainty is never negative** (whatever the covariance, whatever the observable) and the
+    quadrature-sum variance is a sum of squares.  (Seeded change C18-10: the `orig_conventions` post-processing applied to
+    the uncertainty as well returned −√(dᵀCd) for sign-flipping harmonics; the model has no such step, the harness's
+    `options` stream evaluates it on the real code.) -/
+theorem predictUnc_nonneg (f : List ℝ → ℝ) (θ hs : List ℝ) (C : Option (List (List ℝ))) :
+    0 ≤ (predictUnc f θ hs C).2 := by
+  unfold predictUnc
+  exact Real.sqrt_nonneg _
+
+theorem varDiag_nonneg (d hs : List ℝ) : 0 ≤ varDiag d hs := by
+  rw [varDiag_eq_sum]
+  apply List.sum_nonneg
+  intro x hx
+  obtain ⟨p, _, rfl⟩ := List.mem_map.1 hx
+  positivity
+
 /-- the observable restricted to each coordinate line through θ is a polynomial of degree ≤ 2 in the
     shift: slope `g i` (= ∂f/∂θᵢ at θ), curvature `b i`.  Affine observables have b = 0. -/
 def LocallyQuadratic (f : List ℝ → ℝ) (θ : List ℝ) (g b : Nat → ℝ) : Prop :=
